@@ -714,6 +714,14 @@ def check_idle_and_disable(ctx):
                key=f"idle-value {'stop' if stop else 'elapsed'}", where=f.where)
     for cname, enabled, thread, stop_flag in (("TcpClientConnection", "self.enabled", "self.connection_thread", "self.stop_connection_thread"),
                                               ("TcpServerConnection", "self._enabled", "self._server_thread", "self._stop_server_thread")):
+        # the flags start lowered: an endpoint that is born "enabled" ignores enable(), one born with a stop request ends
+        # its first listener / connect thread at once
+        ini = repo.method(cname, "__init__", inherited=False)
+        ctx.touch(ini)
+        for fl in (enabled, stop_flag):
+            sts = [st for st in rules.func_stmts(ini.node) if isinstance(st, (ast.Assign, ast.AnnAssign)) and any(dotted(t) == fl for t in (st.targets if isinstance(st, ast.Assign) else [st.target]))]
+            ok = len(sts) == 1 and sts[0].value is not None and rules.literal(ini.node, sts[0].value) == (True, False)
+            ctx.ob("C09.W2", ini.qualname, ok, f"{fl} starts lowered" if ok else f"{fl} is not initialised to False in the constructor: enable() does nothing / the first thread sees a stop request", key="initial " + fl, where=ini.where)
         d = repo.method(cname, "disable", inherited=False)
         ctx.touch(d)
         q = d.qualname
